@@ -29,7 +29,7 @@ type C12Case struct {
 var _ = Register("C12", func() interface{} { return new(C12Case) }, func(c interface{}) string { return c12Oracle(c.(*C12Case)) })
 
 var c12Decl = &GenCfg{Depth: 2, Fanout: 2, MaxOpts: 4, MaxGroups: 2, NestGroups: 2, Kinds: append(append([]Kind{}, AllArgKinds...), KBool, KBoolSlice, KBoolPtr, KFuncS),
-	Ns: true, Req: 0, Defaults: true, OptArg: true, Hidden: true, Desc: true, Bases: true, Aliases: true, SubOpt: 100, NonASCII: true, CmdPct: 60, InCode: 8, FieldPool: true, ViaAdd: 6}
+	Ns: true, Req: 0, Defaults: true, OptArg: true, Hidden: true, Desc: true, Bases: true, Aliases: true, SubOpt: 100, NonASCII: true, CmdPct: 60, InCode: 8, FieldPool: true, ViaAdd: 6, NsDelims: []string{"-", "::"}}
 
 var c12Strings = []string{"", " ", " lead", "trail ", "\tlead", "\"quoted\"", "\"half", "half\"", "\"", ";semi", "#hash", "a=b", "=", "[sec]", "\x00", "line\nbreak", "cr\rx", "tab\tx",
 	"é中", "\xff\xfe", "a\\b", "a\\\"b", "'", "k:v", ":", " nbsp", " ls", "x\u0085", "\\n", "true", "0", "; x = y", "value with  two  spaces"}
